@@ -14,7 +14,7 @@ all model functions are total Lean functions standing for loops that the proofs 
 end by their own exit condition (never by exhausting the fuel), it is also
 "always terminates".
 -/
-import DSymVerif.Proofs.TextLex
+import DSymVerif.Proofs.TextSets
 
 namespace DSymVerif.C01
 open DSymVerif DSymVerif.DS DSymVerif.Text
@@ -96,6 +96,18 @@ theorem fromSpec_ok_wellformed (spec : DSymSpec) (s : DSymData) (h : fromSpec sp
 
 example : (fromSpec ⟨1, 1, 2, 3, [[2], [1, 2], [1, 2], [2]], [[6], [3, 2], [6]]⟩).isOk = true := by decide
 
+/-- "… whose degrees are multiples of the corresponding orbit lengths": for a parsed symbol the
+    number `r(i, i+1, d)` is the orbit length of d — the least k ≥ 1 with (s_{i+1} s_i)^k d = d,
+    where one round `stepF s.dset i` is `op(i, ·)` followed by `op(i+1, ·)` (`stepF_is_two_ops`) —
+    and the degree is `m = r · v`. -/
+theorem fromSpec_ok_degrees (spec : DSymSpec) (s : DSymData) (h : fromSpec spec = .ok s) :
+    DegreesAreMultiplesOfOrbitLengths s := by
+  by_cases ha : Admitted spec
+  · by_cases hb : spec.size * (spec.dim + 1) < allocLimit
+    · exact ((fromSpec_core spec ha hb).2 s h).1.orbitLengths
+    · rw [fromSpec_too_big spec ha hb] at h; cases h
+  · rw [fromSpec_not_admitted spec ha] at h; cases h
+
 theorem parse_ok_wellformed (cs : List Char) (s : DSymData) (h : parse cs = .ok s) :
     1 ≤ s.size ∧ 1 ≤ s.dim ∧ OpsAreInvolutions s ∧ DegreesAreMultiples s := by
   unfold parse at h
@@ -105,6 +117,103 @@ theorem parse_ok_wellformed (cs : List Char) (s : DSymData) (h : parse cs = .ok 
     obtain ⟨_, _, a, b, c, d⟩ := fromSpec_ok_wellformed spec s h
     exact ⟨a, b, c, d⟩
 
+/-- Parsing an arbitrary string that succeeds returns a symbol whose degrees are multiples of
+    the corresponding (true) orbit lengths. -/
+theorem parse_ok_degrees (cs : List Char) (s : DSymData) (h : parse cs = .ok s) :
+    DegreesAreMultiplesOfOrbitLengths s := by
+  unfold parse at h
+  split at h
+  · cases h
+  · rename_i spec _
+    exact fromSpec_ok_degrees spec s h
+
 example : (parse "<1.1:2 3:2,1 2,1 2,2:6,3 2,6>".toList).isOk = true := by decide
+
+/-! ### the grammar reads back what the printer writes -/
+
+/-- `lex (render spec ++ trail) = some spec` for every specification whose numbers fit `usize`
+    and whose lists are non-empty (`Printed`), and every trailing text: decimal print/parse round
+    trip, separators, the `alt` order of `extents` (a lone size means dimension 2); whatever
+    follows the closing `>` is ignored (`from_str` discards the unparsed rest). -/
+theorem lex_render (spec : DSymSpec) (h : Printed spec) (trail : List Char) :
+    lex (render spec ++ trail) = some spec :=
+  lex_render_aux spec h trail
+
+example : Printed ⟨10, 8, 2, 3, [[1, 2], [1, 2], [1, 2], [2]], [[3, 3], [3, 4], [4]]⟩ := by
+  refine ⟨by decide, by decide, by decide, by decide, by decide, by decide, ?_, ?_⟩ <;>
+    (intro ys hys; simp only [List.mem_cons, List.not_mem_nil, or_false] at hys
+     rcases hys with rfl | rfl | rfl | rfl <;> exact ⟨by decide, by decide⟩)
+
+/-! ### printing and parsing back
+
+`SymInv s` describes the values of the types `PartialDSym` / `SimpleDSym` as the library's
+constructors produce them: a complete D-set whose operations are involutions on 1..size, the
+orbit tables `collect_orbits` computes for it, one branching entry per orbit
+(`SymInv.ofSimple`, `setV_ok`: `From<SimpleDSet>` establishes it and `set_v` preserves it).
+`Fits s c c'` says that the counters, size, dimension and degrees are `usize` values and that
+the operation table could be allocated — true of every value of the Rust types.
+`SameSym s t` is equality of symbols in the sense of DESIGN §5.1: same D-set, same orbit
+tables, same branching number for every chamber and adjacent index pair. -/
+
+/-- the text `DSet::fmt` writes for a symbol is the canonical rendering of `display` -/
+theorem fmt_is_render_of_display (s : DSymData) (c c' : Nat) (h : SymInv s) :
+    fmt (Printable.ofSimpleDSym s c c') = .ok (render (displaySpec s c c')) ∧
+    display (Printable.ofSimpleDSym s c c') = .ok (displaySpec s c c') := by
+  have N := collectOrbits_numbering h.set s.view rfl (fun j e hj he1 he2 => view_op_in_range s hj he1 he2)
+  exact ⟨fmt_eq_render s c c' h N, display_eq s c c' h N⟩
+
+/-- `fromSpec_display`: `FromStr` applied to what `Display` emits for a symbol returns that symbol
+    (every dimension, every size; ○ of DESIGN §6 C01). -/
+theorem fromSpec_display (s : DSymData) (c c' : Nat) (h : SymInv s) (h1 : 1 ≤ s.size) (h2 : 1 ≤ s.dim)
+    (hu : s.dim + 1 < usizeLimit) (hb : s.size * (s.dim + 1) < allocLimit) :
+    ∃ spec t, display (Printable.ofSimpleDSym s c c') = .ok spec ∧ fromSpec spec = .ok t ∧ SameSym s t := by
+  obtain ⟨t, ht, hs⟩ := fromSpec_displaySpec s c c' h h1 h2 hu hb
+  exact ⟨displaySpec s c c', t, (fmt_is_render_of_display s c c' h).2, ht, hs⟩
+
+/-- Printing any D-symbol (`SimpleDSym` with counters c, c'; `PartialDSym` is the case c' = 1)
+    and parsing the text back yields an equal symbol. -/
+theorem print_parse_round_trip (s : DSymData) (c c' : Nat) (h : SymInv s) (h1 : 1 ≤ s.size)
+    (h2 : 1 ≤ s.dim) (hf : Fits s c c') :
+    ∃ cs t, fmt (Printable.ofSimpleDSym s c c') = .ok cs ∧ parse cs = .ok t ∧ SameSym s t :=
+  print_parse s c c' h h1 h2 hf
+
+example : Printable.ofPartialDSym = fun s c => Printable.ofSimpleDSym s c 1 := rfl
+
+-- the hypotheses are satisfiable (here by the symbol of `<1.1:2 3:2,1 2,1 2,2:6,3 2,6>`)
+example : ∃ s, SymInv s ∧ 1 ≤ s.size ∧ 1 ≤ s.dim ∧ Fits s 1 1 := by
+  have hok : (fromSpec ⟨1, 1, 2, 3, [[2], [1, 2], [1, 2], [2]], [[6], [3, 2], [6]]⟩).isOk = true := by decide
+  cases hp : fromSpec ⟨1, 1, 2, 3, [[2], [1, 2], [1, 2], [2]], [[6], [3, 2], [6]]⟩ with
+  | ok s => exact ⟨s, fromSpec_fits _ s hp (by decide) (by decide)⟩
+  | err => rw [hp] at hok; cases hok
+  | panic => rw [hp] at hok; cases hok
+
+/-- The two plain D-set `Display` impls: a complete D-set prints the text of the symbol over it
+    with no branching number defined, and that text parses to exactly this symbol. -/
+theorem print_parse_round_trip_dset (ds : DSetData) (c : Nat) (h : ValidSet ds) (h1 : 1 ≤ ds.size)
+    (h2 : 1 ≤ ds.dim) (hc : c < usizeLimit) (hs : ds.size < usizeLimit) (hd : ds.dim + 1 < usizeLimit)
+    (ht : ds.size * (ds.dim + 1) < allocLimit) :
+    fmt (Printable.ofPartialDSet ds) = fmt (Printable.ofSimpleDSet ds 1) ∧
+    ∃ cs t, fmt (Printable.ofSimpleDSet ds c) = .ok cs ∧ parse cs = .ok t ∧
+      SameSym (DSymData.ofSimple ds) t :=
+  ⟨fmt_partialDSet_eq h, print_parse_dset h c h1 h2 hc hs hd ht⟩
+
+/-- `reparse_stable`: printing a parsed symbol gives text that parses to that same symbol again
+    (no side condition: the numbers of a parsed symbol come from the text and fit `usize`). -/
+theorem reparse_stable (cs : List Char) (s : DSymData) (h : parse cs = .ok s) :
+    ∃ cs' t, fmt (Printable.ofPartialDSym s 1) = .ok cs' ∧ parse cs' = .ok t ∧ SameSym s t :=
+  reparse cs s h
+
+example : (parse "<1.1:2:2,2,2:0,3>".toList).isOk = true := by decide
+
+/-- the same at the level of specifications, for arbitrary (also unprintably large) numbers -/
+theorem reparse_stable_spec (spec : DSymSpec) (s : DSymData) (h : fromSpec spec = .ok s) :
+    ∃ t, fromSpec (displaySpec s 1 1) = .ok t ∧ SameSym s t := by
+  by_cases ha : Admitted spec
+  case neg => rw [fromSpec_not_admitted spec ha] at h; cases h
+  by_cases hb : spec.size * (spec.dim + 1) < allocLimit
+  case neg => rw [fromSpec_too_big spec ha hb] at h; cases h
+  obtain ⟨inv, hs, hd⟩ := (fromSpec_core spec ha hb).2 s h
+  exact fromSpec_displaySpec s 1 1 inv (by rw [hs]; exact ha.size_pos) (by rw [hd]; exact ha.dim_pos)
+    (by rw [hd]; exact ha.dim_fits) (by rw [hs, hd]; exact hb)
 
 end DSymVerif.C01
